@@ -187,16 +187,34 @@ func conc(c *agent.Config, f *cfgField, v interface{}) {
 		fv.Set(reflect.ValueOf(mm))
 	case "list":
 		l := v.([]interface{})
-		if len(l) == 0 {
+		// lists are built with SPARE CAPACITY (like a list grown by append, or the result of an earlier merge):
+		// code that appends onto an input's slice then writes into the input's backing array
+		spare := listSpare
+		if len(l) == 0 && spare == 0 {
 			fv.Set(reflect.Zero(f.typ))
 			return
 		}
-		ss := make([]string, len(l))
+		ss := make([]string, len(l), len(l)+spare)
 		for i, x := range l {
 			ss[i] = concStr(f, h.ToInt(x))
 		}
 		fv.Set(reflect.ValueOf(ss))
 	}
+}
+
+// listSpare: spare capacity given to every list of the sources built next (0 or 4, alternating per vector)
+var listSpare int
+
+// fullEqual is reflect.DeepEqual, except that slices are compared over their whole CAPACITY: a write past len
+// into the backing array of an input is a modification of memory the input owns
+func fullEqual(p, q reflect.Value) bool {
+	if p.Kind() == reflect.Slice {
+		if p.IsNil() != q.IsNil() || p.Len() != q.Len() || p.Cap() != q.Cap() {
+			return false
+		}
+		return reflect.DeepEqual(p.Slice(0, p.Cap()).Interface(), q.Slice(0, q.Cap()).Interface())
+	}
+	return reflect.DeepEqual(p.Interface(), q.Interface())
 }
 
 func absStr(f *cfgField, s string) int {
@@ -412,6 +430,7 @@ func runMerge(in, out, dir string) {
 		tr.Reset(s.ID, nil)
 		for _, st := range s.Steps {
 			v := vecOf(st)
+			listSpare = 4 * (s.ID % 2)
 			mk := func(i int) *agent.Config { return buildConfig(fs, v, i) }
 			// pairwise merge; inputs compared with identically built copies afterwards
 			a, b := mk(0), mk(1)
@@ -420,6 +439,12 @@ func runMerge(in, out, dir string) {
 			la, lb, lc := mk(0), mk(1), mk(2)
 			l := agent.MergeConfig(agent.MergeConfig(la, lb), lc)
 			r := agent.MergeConfig(mk(0), agent.MergeConfig(mk(1), mk(2)))
+			// a HISTORY of merges with a shared left operand: base = x+y, then base+z and base+x.  Every earlier
+			// result and input is projected again only after the last merge (see the field loop below).
+			hd, hf := mk(0), mk(1)
+			hbase := agent.MergeConfig(hd, hf)
+			hx := agent.MergeConfig(hbase, mk(2))
+			hy := agent.MergeConfig(hbase, mk(0))
 			// files
 			vd := filepath.Join(dir, fmt.Sprintf("v%d", s.ID))
 			names := []string{"f-a.json", "f-b.json", "f-c.json"}
@@ -449,17 +474,18 @@ func runMerge(in, out, dir string) {
 			for i := range fs {
 				f := &fs[i]
 				same := func(p, q *agent.Config) int {
-					return b2i(reflect.DeepEqual(reflect.ValueOf(p).Elem().FieldByIndex(f.index).Interface(),
-						reflect.ValueOf(q).Elem().FieldByIndex(f.index).Interface()))
+					return b2i(fullEqual(reflect.ValueOf(p).Elem().FieldByIndex(f.index), reflect.ValueOf(q).Elem().FieldByIndex(f.index)))
 				}
 				act := map[string]interface{}{"a": "field", "f": f.path, "k": f.kind,
 					"x": v[f.kind][0], "y": v[f.kind][1], "z": v[f.kind][2]}
 				obs := map[string]interface{}{"una": same(a, a0), "unb": same(b, b0),
-					"un3": []int{same(la, a0), same(lb, b0), same(lc, c0)}}
+					"un3": []int{same(la, a0), same(lb, b0), same(lc, c0)}, "unh": []int{same(hd, a0), same(hf, b0)}}
 				if f.kind == "raw" {
 					obs["ab"], obs["l"], obs["r"], obs["fs"], obs["dir"] = 0, 0, 0, 0, 0
+					obs["hb"], obs["hx"], obs["hy"] = 0, 0, 0
 				} else {
 					obs["ab"], obs["l"], obs["r"], obs["fs"], obs["dir"] = abs(ab, f), abs(l, f), abs(r, f), abs(fcfg, f), abs(dcfg, f)
+					obs["hb"], obs["hx"], obs["hy"] = abs(hbase, f), abs(hx, f), abs(hy, f)
 				}
 				tr.Step(act, obs)
 			}
